@@ -86,9 +86,10 @@ pub struct Win {
 
 impl Win {
     pub const NONE: Win = Win { from: None, until: None };
-    /// Does the window apply at day `t` (t is never a boundary)?
-    pub fn admits(&self, t: i8) -> bool {
-        self.from.map(|f| f < t).unwrap_or(true) && self.until.map(|u| t < u).unwrap_or(true)
+    /// Does the window apply at the instant `t2` (in HALF days relative to the base instant, see
+    /// `Query::when`; never a boundary)?
+    pub fn admits(&self, t2: i16) -> bool {
+        self.from.map(|f| (f as i16) * 2 < t2).unwrap_or(true) && self.until.map(|u| t2 < (u as i16) * 2).unwrap_or(true)
     }
 }
 
@@ -130,9 +131,51 @@ pub const POLICY_NAMES: [&str; 4] = ["baseline", "kip:policy:baseline", "forecas
 
 #[derive(Clone, Debug, Serialize, Deserialize, PartialEq)]
 pub struct Query {
-    /// evaluation day (never a window boundary)
+    /// evaluation day (never a window boundary unless `half`)
     pub t: i8,
     pub policy: PolicySel,
+    /// evaluate at noon of day `t` instead of midnight (then `t` may be a boundary day)
+    #[serde(default)]
+    pub half: bool,
+    /// how the evaluation instant is spelled in `FOR TIME` (see `Query::instant`): the same instant
+    /// must project the same belief however a valid RFC 3339 timestamp spells it
+    #[serde(default)]
+    pub spelling: u8,
+}
+
+impl Query {
+    /// The evaluation instant in half days relative to the base instant.
+    pub fn when(&self) -> i16 {
+        (self.t as i16) * 2 + self.half as i16
+    }
+    /// The evaluation instant as the `FOR TIME` parameter: canonical, with milliseconds, with a
+    /// zero offset, or with a positive / negative zone offset (the local date may then differ from
+    /// the UTC date - an implementation that compares spellings instead of instants goes wrong when
+    /// a validity edge lies between the two).
+    pub fn instant(&self) -> String {
+        let d = 15 + self.t as i32;
+        let h = if self.half { 12 } else { 0 };
+        match self.spelling % 6 {
+            0 => format!("2026-03-{d:02}T{h:02}:00:00Z"),
+            1 => format!("2026-03-{d:02}T{h:02}:00:00.000Z"),
+            2 => format!("2026-03-{d:02}T{h:02}:00:00+00:00"),
+            3 => format!("2026-03-{d:02}T{:02}:00:00+08:00", h + 8),
+            4 => {
+                if self.half {
+                    format!("2026-03-{d:02}T00:00:00-12:00")
+                } else {
+                    format!("2026-03-{:02}T19:00:00-05:00", d - 1)
+                }
+            }
+            _ => {
+                if self.half {
+                    format!("2026-03-{:02}T02:00:00+14:00", d + 1)
+                } else {
+                    format!("2026-03-{d:02}T14:00:00+14:00")
+                }
+            }
+        }
+    }
 }
 
 /// The policy a query runs under, as documented in projection/policy.rs.
@@ -265,7 +308,7 @@ pub fn normalize_specs(specs: &mut [ASpec]) {
 /// Exclusion reasons that apply to an assertion (empty = eligible). When
 /// several stages apply any of their reasons is accepted: the stage numbering
 /// suggests an order but the property does not state one.
-pub fn exclusion_reasons(a: &ASpec, t: i8, pol: &Pol) -> Vec<&'static str> {
+pub fn exclusion_reasons(a: &ASpec, t: i16, pol: &Pol) -> Vec<&'static str> {
     let mut r = vec![];
     match a.life {
         Life::Active => {}
@@ -395,7 +438,7 @@ pub struct RefBelief {
 /// rival value of a functional predicate opposes this one, because the schema
 /// says only one of them can apply"); a rival's reject / uncertain assertions
 /// say nothing about the target.
-pub fn reference(specs: &[ASpec], functional: bool, target: u8, t: i8, pol: &Pol) -> RefBelief {
+pub fn reference(specs: &[ASpec], functional: bool, target: u8, t: i16, pol: &Pol) -> RefBelief {
     let mut supporting = BTreeSet::new();
     let mut opposing = BTreeSet::new();
     let mut uncertain = BTreeSet::new();
